@@ -83,7 +83,7 @@
 //!  t-bcast <ch> <hex>         -> ok <ids,|->  (the connected ids it went to)
 //!  t-recv c<k>|s<id> <ch>     -> msg <hex> | none
 //!  t-recvall c<k>|s<id> <ch>  -> msgs <n> <hex>..
-//!  t-ev                       -> none | connected <id> | disconnected <id> <reason>
+//!  t-ev                       -> none | connected <id> | disconnected <id> <reason>   (canonical order, see `collect_events`)
 //!  t-state                    -> st rc=[..] rd=[..] nn=<n> nc=[..] bad=[..] c<k>=<id>:<renet status>/<netcode reason|->..
 //!        rc/rd = RS.clients_id()/disconnections_id() sorted, nn = transport.connected_clients(),
 //!        nc = known ids with transport.client_addr(id) = Some, bad = those whose address is no relay
@@ -99,6 +99,10 @@
 //! forward), so a trace's outputs are a function of its op list (checked: identical outcome histograms
 //! across repeated and heavily oversubscribed runs). Keys, nonces and ports differ from run to run but
 //! never appear in an output.
+//!
+//! Model side: lean/RenetVerif/Transport/{Glue,Driver,ToyAead}.lean implement every op above with the same
+//! outputs (virtual addresses, deterministic keys, toy AEAD); nothing in an op or output line names a
+//! datagram byte, key or OS address, relay items are referred to by queue index only.
 //!
 //! # Profiles
 //!  tp-lossless  1-3 clients, every datagram forwarded once, in order, in its tick; traffic on the three
@@ -281,6 +285,8 @@ struct Inner {
     sentinel: UdpSocket,
     sentinel_addr: SocketAddr,
     ids: Vec<u64>,
+    /// server events in the canonical order in which `t-ev` hands them out
+    evq: std::collections::VecDeque<String>,
 }
 
 pub struct TWorld {
@@ -337,6 +343,28 @@ fn drain_into(sock: &UdpSocket, sock_addr: SocketAddr, sentinel: &UdpSocket, sen
 }
 
 impl Inner {
+    /// Move the events a server call produced into `evq`. `RenetServer::disconnections_id()` walks a
+    /// HashMap, so the events of step 4 of `update` come in an arbitrary order: the maximal trailing run
+    /// of `disconnected` events whose reason is not `Transport` is sorted by id (the model does the same).
+    fn collect_events(&mut self) {
+        let mut batch: Vec<(bool, u64, String)> = vec![];
+        while let Some(e) = self.server.get_event() {
+            batch.push(match e {
+                ServerEvent::ClientConnected { client_id } => (false, client_id, format!("connected {}", client_id)),
+                ServerEvent::ClientDisconnected { client_id, reason } => {
+                    (reason != DisconnectReason::Transport, client_id, format!("disconnected {} {}", client_id, reason_str(&reason)))
+                }
+            });
+        }
+        let mut cut = batch.len();
+        while cut > 0 && batch[cut - 1].0 {
+            cut -= 1;
+        }
+        batch[cut..].sort_by_key(|e| e.1);
+        for e in batch {
+            self.evq.push_back(e.2);
+        }
+    }
     fn drain_front(&mut self, k: usize) {
         let s = &mut self.slots[k];
         let (a, b) = s.q.split_at_mut(1);
@@ -528,6 +556,7 @@ impl World for TWorld {
                 sentinel,
                 sentinel_addr,
                 ids: vec![],
+                evq: Default::default(),
             };
             for k in 0..n {
                 if let Err(e) = w.make_client(k, 100 + k as u64) {
@@ -591,6 +620,7 @@ impl World for TWorld {
                     Ok(()) => "ok".to_string(),
                     Err(e) => terr_str(&e),
                 };
+                w.collect_events();
                 w.drain_backs();
                 r
             }
@@ -733,11 +763,7 @@ impl World for TWorld {
                     }
                 }
             }
-            "t-ev" if t.len() == 1 => match w.server.get_event() {
-                None => "none".into(),
-                Some(ServerEvent::ClientConnected { client_id }) => format!("connected {}", client_id),
-                Some(ServerEvent::ClientDisconnected { client_id, reason }) => format!("disconnected {} {}", client_id, reason_str(&reason)),
-            },
+            "t-ev" if t.len() == 1 => w.evq.pop_front().unwrap_or_else(|| "none".to_string()),
             "t-state" if t.len() == 1 => {
                 let mut rc = w.server.clients_id();
                 rc.sort();
@@ -795,6 +821,7 @@ impl World for TWorld {
             }
             "t-sdiscall" if t.len() == 1 => {
                 w.st.disconnect_all(&mut w.server);
+                w.collect_events();
                 w.drain_backs();
                 "ok".into()
             }
